@@ -14,7 +14,9 @@ import (
 )
 
 // Checks: the try transformer functions, the hand-written try extras and try.Func/Pure/Unit/Ptr/Curried*.
-func Checks() []Check { return Concat(ChecksTryTransformers(), ChecksTryMisc()) }
+func Checks() []Check {
+	return Concat(ChecksTryTransformers(), ChecksTryMisc(), ChecksSentinels(), ChecksSentinels(), ChecksSentinels())
+}
 
 func ChecksTryTransformers() []Check {
 	type TS = fp.Try[fp.Seq[int]]
